@@ -420,7 +420,7 @@ func isNullableTypeNamed(t *ast.Type, typename string) bool {
 }
 
 func isNodeField(f *ast.FieldDefinition) bool {
-	if common.IsNodeInterfaceName(f.Name) || len(f.Arguments) != 1 {
+	if f.Name != common.NodeFieldName || len(f.Arguments) != 1 {
 		return false
 	}
 	arg := f.Arguments[0]
